@@ -86,7 +86,8 @@ def check_family(ctx, rep):
         ok_all = ok_all and bool(okr)
     FAMILY = family(prog)
     # no length-changing use of the family (or machines) anywhere in the crate
-    allowed = ('IndexMut::index_mut', 'DerefMut::deref_mut', '<impl [T]>::iter_mut', '<impl [T]>::fill', 'Index::index')
+    allowed = ('IndexMut::index_mut', 'DerefMut::deref_mut', '<impl [T]>::iter_mut', '<impl [T]>::fill', 'Index::index',
+               '<impl [T]>::get_mut', '<impl [T]>::get')   # element access only: none of these changes a length
     for fn in prog.crate_fns(FW):
         if not fn.has_body or fn.derived:
             continue
@@ -177,7 +178,19 @@ class ValidIdx:
         # guarded by a bounds test still alive on every path
         st = self.pf(fn).at(at[0], at[1])
         es = strip_sites(e)
-        ok, w = all_paths(st, lambda S: cmp_int_true(S, 'lt', lambda l: l == es, self.family_len))
+        fam = family(self.prog)
+
+        def checked_get(S):
+            # `family.get(e)` / `get_mut(e)` returned Some (possibly through `?`): e is in range
+            for f in S:
+                if f[0] == 'variant' and f[2] in ('Some', 'Continue'):
+                    for x in walk(f[1]):
+                        if isinstance(x, tuple) and x and x[0] == 'call' and (x[1].endswith('<impl [T]>::get') or x[1].endswith('<impl [T]>::get_mut')) \
+                                and len(x[2]) == 2 and strip_sites(x[2][1]) == es and \
+                                contains(x[2][0], lambda y: isinstance(y, tuple) and y and y[0] == 'fld' and y[3] in fam and y[2].endswith('Framework')):
+                            return True
+            return False
+        ok, w = all_paths(st, lambda S: cmp_int_true(S, 'lt', lambda l: l == es, self.family_len) or checked_get(S))
         return ok and bool(st)
 
     def fixpoint(self):
